@@ -576,7 +576,17 @@ func determinismHistory(run *ev.Run, c int, tmp string) {
 }
 
 func determinismStraddle(run *ev.Run, c int, tmp string, D time.Duration) {
+	determinismStraddleTry(run, c, tmp, D, 0)
+}
+
+// determinismStraddleTry: one generator/replica pair for the duration D. A pair on whose probe timestamps no operation
+// priced through the oracle exchange rate succeeded cannot show a host-clock dependence of that path either way: it is
+// given up and another history (another chain seed) is tried, twice at most, before the case is called inconclusive.
+func determinismStraddleTry(run *ev.Run, c int, tmp string, D time.Duration, attempt int) {
 	seed := fmt.Sprintf("straddle-%d-%d", run.Seed, c)
+	if attempt > 0 {
+		seed += fmt.Sprintf("-retry%d", attempt)
+	}
 	jpath := filepath.Join(tmp, "journal.jsonl")
 	j := rig.NewJournal(jpath)
 	t0 := time.Now() // the host clock is read here on purpose: this case places chain time relative to it
@@ -621,7 +631,15 @@ func determinismStraddle(run *ev.Run, c int, tmp string, D time.Duration) {
 	if pricedOK() == priced0 {
 		// nothing that reads the oracle exchange rate succeeded on the probe timestamps: this execution pair cannot show a
 		// host-clock dependence of that path either way
-		run.Inconc("straddle D=%s: no operation priced through the oracle exchange rate succeeded during the probe phase", D)
+		if attempt < 2 {
+			run.Count("straddle-pair-given-up-for-another-history", 1)
+			sub := filepath.Join(tmp, fmt.Sprintf("retry%d", attempt+1))
+			if err := os.MkdirAll(sub, 0o755); err == nil {
+				determinismStraddleTry(run, c, sub, D, attempt+1)
+				return
+			}
+		}
+		run.Inconc("straddle D=%s: no operation priced through the oracle exchange rate succeeded during the probe phase (three histories tried)", D)
 	}
 	lastT := r.Time
 	notBefore := lastT.Add(D + 4*time.Second)
